@@ -1,6 +1,6 @@
     requires wf_partial(partial),
     ensures
-        (partial.major is None) ==> shape_ok(r, npm_plain(partial)),
-        (partial.major is Some && partial.minor is None) ==> shape_ok(r, npm_plain(partial)),
-        (partial.major is Some && partial.minor is Some && partial.patch is None) ==> shape_ok(r, npm_plain(partial)),
-        (partial.major is Some && partial.minor is Some && partial.patch is Some) ==> shape_ok(r, npm_plain(partial)),
+        xM(partial) ==> shape_ok(r, npm_plain(partial)),
+        !xM(partial) && xm(partial) ==> shape_ok(r, npm_plain(partial)),
+        !xm(partial) && xp(partial) ==> shape_ok(r, npm_plain(partial)),
+        !xp(partial) ==> shape_ok(r, npm_plain(partial)),
